@@ -13,7 +13,17 @@ from . import fast
 EXACT = {"eager", "normalize", "lazy", "sequential"}
 
 
+_INTERPS = None
+
+
 def _interp_names():
+    global _INTERPS
+    if _INTERPS is None:
+        _INTERPS = _find_interps()
+    return _INTERPS
+
+
+def _find_interps():
     import funsor.optimizer as opt
     names = {}
     for obj in gc.get_objects():
@@ -72,7 +82,8 @@ class RuleRecorder:
             if lhs_f is result:
                 return
             lhs = fast.to_ast(lhs_f)
-            rhs = fast.to_ast(result)
+            g = self.ground(result)
+            rhs = fast.to_ast(result) if g is None else None
         except fast.Unrepresentable as e:
             self.skipped["unrepresentable:" + str(e).split(" ")[0] + " " + str(e).split(" ")[-1][:24]] += 1
             return
@@ -83,4 +94,24 @@ class RuleRecorder:
         if key in self.seen:
             return
         self.seen.add(key)
-        self.events.append({"kind": "deneq", "interp": iname, "rule": rule, "lhs": lhs, "rhs": rhs})
+        if g is not None:
+            self.events.append({"kind": "project", "interp": iname, "rule": rule, "t": lhs, "lhs": lhs, "_rhs": g})
+        else:
+            self.events.append({"kind": "deneq", "interp": iname, "rule": rule, "lhs": lhs, "rhs": rhs})
+
+    @staticmethod
+    def ground(result):
+        """a ground result (Tensor / Number): kept as floats, compared by the harness with
+        tolerance against the table TLC computes for the lhs"""
+        import numpy as np
+        from funsor.tensor import Tensor
+        from funsor.terms import Number
+        if isinstance(result, Tensor):
+            if result.data.size > fast.MAX_ELEMS:
+                raise fast.Unrepresentable("array too large")
+            return {"ins": [[k, fast.dom_spec(d)] for k, d in result.inputs.items()],
+                    "out": fast.dom_spec(result.output),
+                    "data": np.asarray(result.data, dtype=np.float64).reshape(-1).tolist()}
+        if isinstance(result, Number):
+            return {"ins": [], "out": fast.dom_spec(result.output), "data": [float(result.data)]}
+        return None
